@@ -255,6 +255,20 @@ def call_builtin(it, name, args, kwargs):
         return scalar_cmp('==', a, b, fp)
     if name == 'same_fp_bool':
         return scalar_cmp('==', args[0], args[1], fp)
+    if name == 'floor_':
+        v = args[0]
+        if not is_z3(v):
+            import math
+            return math.floor(v)
+        return z3.ToReal(z3.ToInt(to_real(v)))
+    if name == 'le':
+        return scalar_cmp('<=', args[0], args[1], fp)
+    if name == 'approx_h':
+        # eps-part comparison: symbolically exact; natively the imaginary part is h * (eps-part)
+        return scalar_cmp('==', args[0], args[1], fp)
+    if name == 'atan2':
+        from .trans import apply_trans
+        return apply_trans(it, 'arctan2', args)
     if name == 'approx':
         return scalar_cmp('==', args[0], args[1], fp)
     if name == 'is_scalar':
@@ -515,8 +529,20 @@ def call_module(it, fv, args, kwargs):
         return True
     if name in ('inf', 'nan'):
         raise Unsupported('np.%s called' % name)
+    if name == 'floor':
+        if is_arr(a0):
+            raise Unsupported('floor of array')
+        if not is_z3(a0):
+            import math
+            return math.floor(a0)
+        return z3.ToReal(z3.ToInt(to_real(a0))) if z3.is_real(a0) else a0
     if name == 'sign':
         def sg(x):
+            if isinstance(x, Cx):
+                # NumPy 2: sign(z) = z/|z|.  Dual-number reading (A3): for re != 0 it is sign(re)
+                # with zero first-order part; for re == 0 it is i*sign(im).
+                nz = scalar_cmp('!=', x.re, 0)
+                return Cx(zite(b2z(nz), sg(x.re), 0), zite(b2z(nz), 0, sg(x.im)))
             if not is_z3(x):
                 return (x > 0) - (x < 0)
             return z3.If(x > 0, 1, z3.If(x < 0, -1, 0)) if z3.is_int(x) else \
@@ -525,6 +551,11 @@ def call_module(it, fv, args, kwargs):
             return npm.map1(ctx, a0, sg)
         return sg(a0)
     if name in ('sum',):
+        if kwargs.get('axis', 0) is None:
+            kwargs = {k: v for k, v in kwargs.items() if k != 'axis'}
+        if isinstance(a0, SArr) and a0.ndim == 1 and not kwargs and len(args) == 1 and a0.dtype == 'complex':
+            ag = npm.fz(a0)
+            return Cx(npm.np_sum(ctx, a0.n, lambda k: ag(k).re, 'sum_re'), npm.np_sum(ctx, a0.n, lambda k: ag(k).im, 'sum_im'))
         if isinstance(a0, SArr) and a0.ndim == 1 and not kwargs and len(args) == 1:
             ag = npm.fz(a0)
             return npm.np_sum(ctx, a0.n, lambda k: ag(k))
@@ -580,14 +611,29 @@ def call_module(it, fv, args, kwargs):
             return r
         if is_arr(a0):
             raise Unsupported('sqrt of array')
+        if isinstance(a0, Cx):
+            if not ctx.dual:
+                raise Unsupported('sqrt of complex value outside dual mode')
+            r = sq(a0.re)
+            # eps-part d = im / (2 r), stated without division (keeps the VC polynomial)
+            d = ctx.fresh('dsqrt', RealS)
+            ctx.assume(z3.Implies(tz(r) != 0, d * 2 * tz(r) == tz(to_real(a0.im))))
+            return Cx(r, d)
         return sq(a0)
     if name in ('exp', 'log', 'tanh', 'arctan2', 'cos', 'sin', 'cosh', 'sinh', 'log10'):
         from .trans import apply_trans
         return apply_trans(it, name, args)
-    if name in ('iscomplexobj', 'iscomplex'):
+    if name == 'iscomplexobj':
         if isinstance(a0, SArr):
             return a0.dtype == 'complex'
         return isinstance(a0, Cx)
+    if name == 'iscomplex':
+        # element-wise: imaginary part non-zero
+        if isinstance(a0, SArr):
+            if a0.dtype != 'complex':
+                return npm.new_arr(ctx, a0.shape, lambda *ix: False, 'bool')
+            return npm.map1(ctx, a0, lambda x: scalar_cmp('!=', to_cx(x).im, 0), 'bool')
+        return scalar_cmp('!=', to_cx(a0).im, 0) if isinstance(a0, Cx) else False
     if name == 'isclose':
         raise Unsupported('isclose')
     if name in ('float64', 'float_', 'int64', 'intp'):
